@@ -365,6 +365,37 @@ pub fn run(tier: Tier) -> i32 {
         }
     }
 
+    // one argument per Unicode scalar value (round 6: a table indexed by `c as u8` treats U+0122 like '"'):
+    // every character U+0080..=U+33FF, U+FF00..=U+FFFF and U+1F000..=U+1F6FF, bare (sent unquoted) and next
+    // to a blank (sent quoted), plus longer arguments whose only blank sits in the last len % 8 bytes
+    let scalars: Vec<char> = (0x80u32..=0x33FF).chain(0xFF00..=0xFFFF).chain(0x1F000..=0x1F6FF).filter_map(char::from_u32).collect();
+    let acc6 = scalars
+        .par_chunks(512)
+        .map(|chunk| {
+            let mut acc = Acc::default();
+            for c in chunk {
+                check_case("cmd", &[format!("x{c}y").as_str()], &mut acc, false);
+                if tier == Tier::Thorough || (*c as u32) % 16 == 2 || (*c as u32) % 256 == 0x27 || (*c as u32) % 256 == 0x5c || (*c as u32) % 256 == 0x20 {
+                    check_case("cmd", &[format!("{c} {c}").as_str()], &mut acc, false);
+                }
+            }
+            acc
+        })
+        .reduce(Acc::default, Acc::merge);
+    let mut acc7 = Acc::default();
+    for len in 1..=tier.pick(40usize, 130) {
+        for pos in 0..len {
+            for sep in [" ", "\t", "\x01", "\"", "\u{e9}"] {
+                let mut s: String = "a".repeat(pos);
+                s.push_str(sep);
+                s.push_str(&"a".repeat(len - pos - 1));
+                check_case("cmd", &[s.as_str()], &mut acc7, false);
+                check_case("cmd", &["lead", s.as_str(), "trail"], &mut acc7, false);
+            }
+        }
+    }
+    let acc4 = acc4.merge(acc6).merge(acc7);
+
     // every command name the builder accepts must be read back as that command word
     let name_pool = strings_over(NAME_SIGMA, tier.pick(3, 4));
     let acc5 = name_pool
@@ -387,7 +418,7 @@ pub fn run(tier: Tier) -> i32 {
     cov.evaluations = acc.evaluations;
     cov.distinct_nontrivial = acc.nontrivial;
     cov.rule = format!(
-        "every string over {} class representatives {:?} of length 0..={} as single argument, all pairs of strings of length <=2 (thorough: <=3), all triples of length <=1, plus long argument lists; each case is distinct by construction; non-trivial = some argument is empty or contains a byte <=0x20, a quote, a backslash or a non-ASCII byte",
+        "every string over {} class representatives {:?} of length 0..={} as single argument, all pairs of strings of length <=2 (thorough: <=3), all triples of length <=1, plus long argument lists, one argument x<c>y per Unicode scalar value in U+0080..U+33FF, U+FF00..U+FFFF, U+1F000..U+1F6FF (a subset also next to a blank; thorough: all), and arguments of every length 1..=40 (thorough: ..=130) with one separator / quote / non-ASCII character at every position; each case is distinct by construction; non-trivial = some argument is empty or contains a byte <=0x20, a quote, a backslash or a non-ASCII byte",
         SIGMA.len(),
         SIGMA.iter().map(|s| show_bytes(s.as_bytes())).collect::<Vec<_>>(),
         single_len
